@@ -326,6 +326,13 @@ def rule_r5(prog, res):
                     res.ob('R5', '%s:%d' % (f.module.relpath, node.lineno),
                            '%s: %s' % (f.qualname, unparse(a)), 'ok')
     res.floor('R5', 'presence tests in the document writers', n, 3)
+    f = h.methods.get('deserialize')
+    if f is not None:
+        from .. import guardspec as _gs
+        _gs.presence_rule(res, 'R5', [f], ('doc', 'message_doc'),
+                          'a message that is 0, "", False, [] or {} is taken '
+                          'for a missing one: the bare argument (or the '
+                          'defaults of an empty wrapped call) is lost')
 
 
 # ------------------------------------------------------------------- R6
@@ -908,6 +915,14 @@ def rule_r16(prog, res):
                     '"no arguments" and the function is called with None')
 
 
+def rule_r17(prog, res):
+    from . import c08
+    from ..report import Result
+    res.share('R17', 'the date-time reader shared by the dict documents takes '
+              'the sign of a UTC offset from its text (C08-R4)', 'C08',
+              c08.rule_r4, prog, Result)
+
+
 def run(prog, res, tier):
     res.run_rule(rule_r1, prog, res)
     res.run_rule(rule_r2, prog, res)
@@ -925,6 +940,7 @@ def run(prog, res, tier):
     res.run_rule(rule_r14, prog, res)
     res.run_rule(rule_r15, prog, res)
     res.run_rule(rule_r16, prog, res)
+    res.run_rule(rule_r17, prog, res)
 
 
 _H = 'spyne/protocol/dictdoc/hier.py'
@@ -933,6 +949,11 @@ _J = 'spyne/protocol/json.py'
 _Y = 'spyne/protocol/yaml.py'
 
 MUTANTS = [
+    Mutant('falsy-message-looked-up-again', 'R5', 'fire', _H,
+           in_func('HierDictDocument.deserialize',
+                   "if message_doc is None and self.key_encoding is not None:",
+                   "if not message_doc and self.key_encoding is not None:"),
+           'truthiness'),
     Mutant('bytes-key-fallback-removed', 'R16', 'fire', _H,
            in_func('HierDictDocument.deserialize',
                    r"                if message_doc is None and self\.key_"
